@@ -5,7 +5,7 @@ use super::{State, StreamDef, no_child};
 use crate::rng::Rng;
 use crate::sched::{self, Wait};
 use nervusdb::{
-    ndb_close, ndb_db_t, ndb_execute_write, ndb_open, ndb_query, ndb_result_free, ndb_result_t, ndb_result_to_json,
+    ndb_close, ndb_compact, ndb_db_t, ndb_execute_write, ndb_open, ndb_query, ndb_result_free, ndb_result_t, ndb_result_to_json,
     ndb_string_free,
 };
 use std::ffi::{CStr, CString};
@@ -164,6 +164,30 @@ impl State for S {
                 let rb = wb.join().unwrap_or(-99);
                 format!("{} | {} {} {}", counter(db), ra, rb, blocked)
             }
+            ["racek", a, point] => {
+                // ndb_compact on another thread while statement `a` sits inside commit (holding the writer lock)
+                let (Some(db), Some(qa)) = (self.db, cypher_of(a)) else { return "bad-op".into() };
+                // make sure a run is published, so that the compaction has something to do whatever came before
+                exec_write(db, "MATCH (c:C) SET c.v = c.v + 0");
+                let ctl = sched::ctl();
+                let wa = ctl.spawn("A", Some(point), move || exec_write(db, &qa));
+                if ctl.wait("A", sched::LONG) != Wait::Parked {
+                    let _ = wa.join();
+                    return "A-did-not-reach-hook".into();
+                }
+                let wk = ctl.spawn("K", None, move || {
+                    let db = db;
+                    ndb_compact(db.0)
+                });
+                let blocked = match ctl.wait("K", sched::BLOCK_DETECT) {
+                    Wait::Finished => 0,
+                    _ => 1,
+                };
+                ctl.release("A");
+                let ra = wa.join().unwrap_or(-99);
+                let rk = wk.join().unwrap_or(-99);
+                format!("{} | {} {} {}", counter(db), ra, rk, blocked)
+            }
             ["stress", n, k] => {
                 let (Some(db), Ok(n), Ok(k)) = (self.db, n.parse::<usize>(), k.parse::<usize>()) else {
                     return "bad-op".into();
@@ -239,6 +263,11 @@ fn generate(rng: &mut Rng, n: usize, tier: &str, out: &mut dyn Write) {
             writeln!(out, "racec {} {} {}", a, b, p).unwrap();
         }
     }
+    for p in ["commit.after_wal", "commit.after_node_labels"] {
+        for a in ["inc", "incA", "merge1"] {
+            writeln!(out, "racek {} {}", a, p).unwrap();
+        }
+    }
     writeln!(out, "stress 4 {}", if tier == "thorough" { 200 } else { 15 }).unwrap();
     writeln!(out, "stressm 6 {}", if tier == "thorough" { 150 } else { 6 }).unwrap();
     writeln!(out, "get").unwrap();
@@ -256,7 +285,8 @@ fn generate(rng: &mut Rng, n: usize, tier: &str, out: &mut dyn Write) {
                 3..=6 => {
                     writeln!(out, "racec {} {} {}", gen_stmt(rng), gen_stmt(rng), rng.pick(COMMIT_POINTS)).unwrap()
                 }
-                7 | 8 => writeln!(out, "seq {}", gen_stmt(rng)).unwrap(),
+                7 => writeln!(out, "seq {}", gen_stmt(rng)).unwrap(),
+                8 => writeln!(out, "racek {} {}", gen_stmt(rng), rng.pick(COMMIT_POINTS)).unwrap(),
                 9 => writeln!(out, "stress {} {}", 2 + rng.below(3), 2 + rng.below(6)).unwrap(),
                 10 => writeln!(out, "stressm {} {}", 2 + rng.below(4), 2 + rng.below(4)).unwrap(),
                 _ => writeln!(out, "get").unwrap(),
